@@ -1137,7 +1137,11 @@ pub fn on_packet_complete(w: &mut World, conn: usize, idx: usize, t: u64) {
             if k > 0 && w.app_waiting_since.is_some_and(|s| s <= last) {
                 let gap = t - last;
                 if gap > k as u64 * US_PER_S {
-                    let outstanding = w.conns[conn].outstanding_at_last_complete;
+                    // was a PINGRESP still outstanding when the keep-alive ran out? (one that
+                    // arrived within the keep-alive leaves the client free to send again)
+                    let expiry = last + k as u64 * US_PER_S;
+                    let answered_in_time = w.conns[conn].pingresp_consumed_t.is_some_and(|c| c > last && c <= expiry);
+                    let outstanding = w.conns[conn].outstanding_at_last_complete && !answered_in_time;
                     w.violate(
                         "C10",
                         format!(
@@ -1354,6 +1358,7 @@ pub fn on_client_consumed(w: &mut World, conn: usize, meta: RxMeta) {
         RxMeta::PingResp => {
             if let Some(t) = w.conns[conn].pingreq_outstanding.take() {
                 w.conns[conn].pingresp_consumed_for = Some(t);
+                w.conns[conn].pingresp_consumed_t = Some(clock::now());
             }
         }
         RxMeta::Disconnect => {
